@@ -8,7 +8,7 @@
 From Verif Require Import Base Regex Token TokEngine Lex LexProofs Headers Blocks Pairing Fold ScanFile Spec HeaderSpec
   LexShapes ShapeProofs Grammar GrammarAll.
 From Verif Require Import GrammarProofsParen GrammarProofsBrace GrammarProofsHeaders.
-From Verif Require Import GrammarAllProofsWf GrammarAllProofsSel GrammarAllProofsCand GrammarAllProofsItems GrammarAllProofsJava GrammarAllProofsTS.
+From Verif Require Import GrammarAllProofsTok GrammarAllProofsWf GrammarAllProofsSel GrammarAllProofsCand GrammarAllProofsItems GrammarAllProofsJava GrammarAllProofsTS.
 From Verif Require Import SpecCheck SpecCheckAll.
 From Coq Require Import Sorted Permutation.
 Open Scope nat_scope.
@@ -43,7 +43,7 @@ Proof.
   - apply (canonical_cfamily_shape LCpp); [reflexivity | discriminate | exact H].
   - assert (HP : Permutation (lexical_headers ts) (map header_of ds))
       by (apply (canonical_cfamily_shape LCSharp); [reflexivity | discriminate | exact H]).
-    unfold lexical_headers_CSharp. rewrite (canonical_no_drop LCSharp ts ds _ H HP). exact HP.
+    unfold lexical_headers_CSharp. rewrite (canonical_no_drop _ _ LCSharp ts ds _ (items_of_citems LCSharp 0 ts ds H) HP). exact HP.
   - apply canonical_java. exact H.
   - apply canonical_javascript_shape. exact H.
   - congruence.
@@ -224,6 +224,45 @@ Proof.
   split; apply canonical_of_lexical; try discriminate; apply java3_items; reflexivity.
 Qed.
 
+(* statements with a brace initialiser (rule io_init), at top level and inside a body:
+   int a [ ] = { 1 , 2 } ; void f ( ) { int b [ ] = { 3 } ; x ; } *)
+Definition c4 : list token :=
+  toks [(0,[105;110;116]);(1,[97]);(2,[91]);(2,[93]);(3,[61]);(2,[123]);(7,[49]);(2,[44]);(7,[50]);(2,[125]);(2,[59]);
+        (0,[118;111;105;100]);(1,[102]);(2,[40]);(2,[41]);(2,[123]);
+        (0,[105;110;116]);(1,[98]);(2,[91]);(2,[93]);(3,[61]);(2,[123]);(7,[51]);(2,[125]);(2,[59]);
+        (1,[120]);(2,[59]);(2,[125])]%Z.
+Definition c4_ds : list fdesc := [mkFd 12 12 15 15 27].
+
+Example c4_items : forall l, is_cfamily l = true -> canonical_program_of l c4 c4_ds.
+Proof.
+  intros l Hl. unfold canonical_program_of, c4_ds.
+  let s := eval vm_compute in c4 in change c4 with s.
+  (* int a [ ] = { 1 , 2 } ; *)
+  apply (io_init l 0 [_; _; _; _; _] _ [_; _; _] _ [] _ _ _);
+    [discriminate | reflexivity | reflexivity | reflexivity | reflexivity | constructor | reflexivity | ].
+  cbn [length Nat.add].
+  (* void f ( ) { ... } *)
+  apply (io_func l 11 [_] [_; _; _] 0 3 _ [_; _; _; _; _; _; _; _; _; _; _] _ [] [] []);
+    [reflexivity | | reflexivity | reflexivity | | reflexivity | constructor].
+  - apply (fh_plain l _ [_; _]); [exact Hl | reflexivity |]. apply (one_group _ [] _); reflexivity.
+  - cbn [length Nat.add].
+    (* int b [ ] = { 3 } ; *)
+    apply (io_init l 16 [_; _; _; _; _] _ [_] _ [] _ _ _);
+      [discriminate | reflexivity | reflexivity | reflexivity | reflexivity | constructor | reflexivity | ].
+    cbn [length Nat.add].
+    apply (io_stmt l _ [_; _] [] []); [apply one_stmt; reflexivity | constructor].
+Qed.
+
+Example c4_hypotheses :
+  (wf_descs c4 c4_ds /\ lexically_canonical_of LC c4 c4_ds) /\
+  lexically_canonical_of LJava c4 c4_ds /\ (forall c d, In c c4_ds -> In d c4_ds -> ~ nested_in c d).
+Proof.
+  split; [split; [apply (canonical_of_wf LC) | apply (canonical_of_lexical LC)];
+          (discriminate || (apply c4_items; reflexivity))|].
+  split; [apply canonical_of_lexical; [discriminate | apply c4_items; reflexivity]|].
+  apply (canonical_of_flat LC c4 c4_ds); [reflexivity | apply c4_items; reflexivity].
+Qed.
+
 (* the hypotheses of the end-to-end theorem hold of the examples: by the theorems ... *)
 Example ts1_hypotheses : wf_descs ts1 ds1 /\ lexically_canonical_of LTypeScript ts1 ds1.
 Proof.
@@ -248,5 +287,6 @@ Example examples_checked :
   wf_descs_b ts1 ds1 = true /\ lexically_canonical_of_b LTypeScript ts1 ds1 = true /\
   wf_descs_b java1 java1_ds = true /\ lexically_canonical_of_b LJava java1 java1_ds = true /\
   wf_descs_b js1 js1_ds = true /\ lexically_canonical_of_b LJavaScript js1 js1_ds = true /\
-  wf_descs_b java3 java3_ds = true /\ lexically_canonical_of_b LJava java3 java3_ds = true.
+  wf_descs_b java3 java3_ds = true /\ lexically_canonical_of_b LJava java3 java3_ds = true /\
+  wf_descs_b c4 c4_ds = true /\ lexically_canonical_of_b LC c4 c4_ds = true.
 Proof. vm_compute. repeat split; reflexivity. Qed.
